@@ -70,6 +70,8 @@ pub struct Interpreter<'a, T: IO> {
     // Storing all built-in function names because when modules identifiers are renamed
     // we don't want to rename built-in functions
     built_in_functions: BuiltInFunctionList,
+    #[cfg(pakhi_verif)]
+    verif: VerifState,
 }
 
 impl<'a, T: 'a + IO> Interpreter<'a, T> {
@@ -103,6 +105,8 @@ impl<'a, T: 'a + IO> Interpreter<'a, T> {
             total_allocated_object_count: 0,
             io,
             built_in_functions: BuiltInFunctionList::new(),
+            #[cfg(pakhi_verif)]
+            verif: VerifState::new(),
         }
     }
 
@@ -112,7 +116,11 @@ impl<'a, T: 'a + IO> Interpreter<'a, T> {
                 break;
             }
             self.interpret()?;
+            #[cfg(pakhi_verif)]
+            self.verif_statement_boundary();
             if self.total_allocated_object_count >= 1000 {
+                #[cfg(pakhi_verif)]
+                { self.verif.native_collections += 1; }
                 let mut gc = mark_sweep::GC::new(&mut self.scopes, &mut self.lists,
                                                  &mut self.free_lists,
                                                  &mut self.nameless_records,
@@ -136,6 +144,13 @@ impl<'a, T: 'a + IO> Interpreter<'a, T> {
     }
 
     fn interpret(&mut self) -> Result<(), PakhiErr> {
+        #[cfg(pakhi_verif)]
+        {
+            if self.verif.steps_left == 0 {
+                return Err(PakhiErr::UnexpectedError("verif: step limit".to_string()));
+            }
+            self.verif.steps_left -= 1;
+        }
         match self.stmt_at(self.current).clone() {
             parser::Stmt::Print(expr, _, _) => self.interpret_print_stmt(expr)?,
             parser::Stmt::PrintNoEOL(expr, _, _) => self.interpret_print_no_eol(expr)?,
@@ -1399,4 +1414,136 @@ pub fn run(ast: Vec<parser::Stmt>) -> Result<(), PakhiErr> {
     let mut real_io = RealIO::new();
     let mut interpreter = Interpreter::new(ast, &mut real_io);
     return interpreter.run();
+}
+
+// ---------------------------------------------------------------------------------------------
+// Verification hooks, compiled only with --cfg pakhi_verif. They add observation and
+// control of garbage collection schedule for an external harness and change nothing otherwise.
+// ---------------------------------------------------------------------------------------------
+
+#[cfg(pakhi_verif)]
+#[derive(Debug, Clone, PartialEq)]
+pub enum VerifGcMode {
+    // collections happen when interpreter decides
+    Native,
+    // no collection ever happens
+    Never,
+    // a collection happens after every top level statement
+    Always,
+    // a collection happens after k-th executed top level statement iff mask[k] (false past end)
+    Mask(Vec<bool>),
+}
+
+#[cfg(pakhi_verif)]
+struct VerifState {
+    gc_mode: VerifGcMode,
+    boundaries: usize,
+    forced_collections: usize,
+    native_collections: usize,
+    steps_left: usize,
+}
+
+#[cfg(pakhi_verif)]
+impl VerifState {
+    fn new() -> VerifState {
+        VerifState {
+            gc_mode: VerifGcMode::Native,
+            boundaries: 0,
+            forced_collections: 0,
+            native_collections: 0,
+            steps_left: usize::MAX,
+        }
+    }
+}
+
+#[cfg(pakhi_verif)]
+#[derive(Debug, Clone)]
+pub struct VerifSnapshot {
+    pub scopes: Vec<Vec<(String, Option<DataType>)>>,
+    pub lists: Vec<Vec<DataType>>,
+    pub free_lists: Vec<usize>,
+    pub records: Vec<Vec<(String, DataType)>>,
+    pub free_records: Vec<usize>,
+    pub allocated_object_count: usize,
+    pub current: usize,
+    pub loops: usize,
+    pub return_addrs: usize,
+    pub if_flags: Vec<bool>,
+    pub boundaries: usize,
+    pub forced_collections: usize,
+    pub native_collections: usize,
+}
+
+#[cfg(pakhi_verif)]
+impl<'a, T: 'a + IO> Interpreter<'a, T> {
+    pub fn verif_set_gc_mode(&mut self, mode: VerifGcMode) {
+        self.verif.gc_mode = mode;
+    }
+
+    pub fn verif_set_step_limit(&mut self, steps: usize) {
+        self.verif.steps_left = steps;
+    }
+
+    fn verif_statement_boundary(&mut self) {
+        let k = self.verif.boundaries;
+        self.verif.boundaries += 1;
+        let collect = match &self.verif.gc_mode {
+            VerifGcMode::Native => return,
+            VerifGcMode::Never => false,
+            VerifGcMode::Always => true,
+            VerifGcMode::Mask(mask) => mask.get(k).cloned().unwrap_or(false),
+        };
+        if collect {
+            let mut gc = mark_sweep::GC::new(&mut self.scopes, &mut self.lists,
+                                             &mut self.free_lists,
+                                             &mut self.nameless_records,
+                                             &mut self.free_nameless_records);
+            gc.collect_garbage();
+            self.verif.forced_collections += 1;
+        }
+        // schedule is under control of harness, native trigger must not fire
+        self.total_allocated_object_count = 0;
+    }
+
+    pub fn verif_snapshot(&self) -> VerifSnapshot {
+        let mut scopes: Vec<Vec<(String, Option<DataType>)>> = Vec::new();
+        for scope in self.scopes.iter() {
+            let mut vars: Vec<(String, Option<DataType>)> = scope.iter().map(|(k, v)| (k.clone(), v.clone())).collect();
+            vars.sort_by(|a, b| a.0.cmp(&b.0));
+            scopes.push(vars);
+        }
+        let mut records: Vec<Vec<(String, DataType)>> = Vec::new();
+        for record in self.nameless_records.iter() {
+            let mut entries: Vec<(String, DataType)> = record.iter().map(|(k, v)| (k.clone(), v.clone())).collect();
+            entries.sort_by(|a, b| a.0.cmp(&b.0));
+            records.push(entries);
+        }
+        VerifSnapshot {
+            scopes,
+            lists: self.lists.clone(),
+            free_lists: self.free_lists.clone(),
+            records,
+            free_records: self.free_nameless_records.clone(),
+            allocated_object_count: self.total_allocated_object_count,
+            current: self.current,
+            loops: self.loops.len(),
+            return_addrs: self.return_addrs.len(),
+            if_flags: self.previous_if_was_executed.clone(),
+            boundaries: self.verif.boundaries,
+            forced_collections: self.verif.forced_collections,
+            native_collections: self.verif.native_collections,
+        }
+    }
+}
+
+// Runs the collector on heaps supplied by caller
+#[cfg(pakhi_verif)]
+pub fn verif_collect(scopes: &mut Vec<HashMap<String, Option<DataType>>>,
+                     lists: &mut Vec<Vec<DataType>>,
+                     free_lists: &mut Vec<usize>,
+                     nameless_records: &mut Vec<HashMap<String, DataType>>,
+                     free_nameless_records: &mut Vec<usize>)
+{
+    let mut gc = mark_sweep::GC::new(scopes, lists, free_lists, nameless_records, free_nameless_records);
+    gc.collect_garbage();
 }
